@@ -92,6 +92,18 @@ class SurfaceSubdivision(Logger):
             if len(self.mesh.faces[f])!= 3 :
                 self.triangulate_face(f)
 
+    def _split_edges(self, newMeshData) -> dict:
+        """Appends the middle of every side of every face to newMeshData.vertices. Returns the map edge -> new vertex.
+        Sides are read from the faces: the edge list may lack some of them (quads split earlier in the block add no edge)"""
+        half = dict()
+        for F in self.mesh.faces:
+            for i in range(len(F)):
+                A,B = F[i], F[(i+1)%len(F)]
+                if keyify(A,B) not in half:
+                    half[keyify(A,B)] = len(newMeshData.vertices)
+                    newMeshData.vertices.append((self.mesh.vertices[A] + self.mesh.vertices[B])/2)
+        return half
+
     def loop_subdivision(self, n: int = 1):
         """Subdivides triangles of a mesh in 4 triangles by splitting along middle of edges.
             If the mesh is not triangulated, will triangulate the mesh first.
@@ -108,12 +120,7 @@ class SurfaceSubdivision(Logger):
             newMeshData = RawMeshData()
             newMeshData.vertices += self.mesh.vertices
             # cut every edge in half
-            half = dict()
-            for (A,B) in self.mesh.edges:
-                C = len(newMeshData.vertices)
-                pC = (self.mesh.vertices[A] + self.mesh.vertices[B])/2
-                newMeshData.vertices.append(pC)
-                half[keyify(A,B)]=C
+            half = self._split_edges(newMeshData)
             new_edges = set()
             for f in self.mesh.id_faces:
                 A,B,C = self.mesh.faces[f]
@@ -158,13 +165,7 @@ class SurfaceSubdivision(Logger):
         newMeshData = RawMeshData()
         newMeshData.vertices += self.mesh.vertices
         # cut every edge in half
-        half = dict()
-        for e in self.mesh.id_edges:
-            A,B = self.mesh.edges[e]
-            C = len(newMeshData.vertices)
-            pC = (self.mesh.vertices[A] + self.mesh.vertices[B])/2
-            newMeshData.vertices.append(pC)
-            half[keyify(A,B)]=C
+        half = self._split_edges(newMeshData)
 
         bary = dict()
         for iF,F in enumerate(self.mesh.faces):
